@@ -132,8 +132,12 @@ def decorate(scs, *, seed, calls_choices=(("invoke",), ("stream",), ("invoke", "
                 sc["fail"] = sc["fail"] + [{"n": others[rnd.randrange(len(others))], "kind": sc["fail"][0]["kind"]}]
             elif r < 0.30:
                 sc["fail"] = [{"n": sc["fail"][0]["n"], "kind": "cancel"}]
-            elif r < 0.45 and sc["fail"][0]["kind"] == "err":
+            elif r < 0.42 and sc["fail"][0]["kind"] == "err":
                 sc["fail"] = [{"n": sc["fail"][0]["n"], "kind": "serr"}]      # error item in the middle of the node's output stream
+            elif r < 0.54 and sc["fail"][0]["kind"] == "panic":
+                # a panic inside the lazily converted output stream of the node; other nodes stream too, so that fan-ins merge
+                sc["fail"] = [{"n": sc["fail"][0]["n"], "kind": "spanic"}]
+                sc["snodes"] = list(sc["nodes"])
         sc.setdefault("maxcalls", 8)
     return scs
 
